@@ -8,6 +8,43 @@ from gbasis.integrals._two_elec_int import (
 from gbasis.integrals.point_charge import PointChargeIntegral
 import numpy as np
 
+_ORIENTATIONS = (
+    (0, 1, 2, 3),
+    (1, 0, 2, 3),
+    (0, 1, 3, 2),
+    (1, 0, 3, 2),
+    (2, 3, 0, 1),
+    (3, 2, 0, 1),
+    (2, 3, 1, 0),
+    (3, 2, 1, 0),
+)
+
+
+def _noise_amplification(cont_a, cont_b, cont_c, cont_d):
+    r"""Return an estimate of how much the recursions for (ab|cd) amplify rounding errors.
+
+    Each of the :math:`l_c + l_d` electron-transfer steps multiplies by the ratio of the exponent
+    sums of the two pairs, and subtracts nearly equal numbers when the first pair is much tighter than
+    the second or when its first centre is far from the centre of its product. The horizontal
+    recursions subtract nearly equal numbers when the centre they start from is far from the product
+    centre while the centre they build on is close to it. Only exponents and centres are used.
+
+    """
+    exps_a, exps_b = cont_a.exps[:, None, None, None], cont_b.exps[None, :, None, None]
+    exps_c, exps_d = cont_c.exps[None, None, :, None], cont_d.exps[None, None, None, :]
+    exps_p, exps_q = exps_a + exps_b, exps_c + exps_d
+    coord_p = (exps_a[..., None] * cont_a.coord + exps_b[..., None] * cont_b.coord) / exps_p[..., None]
+    coord_q = (exps_c[..., None] * cont_c.coord + exps_d[..., None] * cont_d.coord) / exps_q[..., None]
+    width_p, width_q = exps_p**-0.5, exps_q**-0.5
+    len_p = np.maximum(np.linalg.norm(coord_p - cont_a.coord, axis=-1), width_p)
+    len_q = np.maximum(np.linalg.norm(coord_q - cont_c.coord, axis=-1), width_q)
+    transfer = np.maximum(1.0, exps_p / exps_q * len_p / len_q) ** (cont_c.angmom + cont_d.angmom)
+    dist_pb = np.maximum(np.linalg.norm(coord_p - cont_b.coord, axis=-1), width_p)
+    dist_qd = np.maximum(np.linalg.norm(coord_q - cont_d.coord, axis=-1), width_q)
+    horiz_b = np.maximum(1.0, np.linalg.norm(cont_a.coord - cont_b.coord) / dist_pb) ** cont_b.angmom
+    horiz_d = np.maximum(1.0, np.linalg.norm(cont_c.coord - cont_d.coord) / dist_qd) ** cont_d.angmom
+    return np.max(transfer * horiz_b * horiz_d)
+
 
 class ElectronRepulsionIntegral(BaseFourIndexSymmetric):
     """Class for constructing electron-electron repulsion integrals.
@@ -155,7 +192,12 @@ class ElectronRepulsionIntegral(BaseFourIndexSymmetric):
         if not isinstance(cont_four, GeneralizedContractionShell):
             raise TypeError("`cont_four` must be a `GeneralizedContractionShell` instance.")
 
-        # TODO: we can probably swap the contractions to get the optimal time or memory usage
+        # (ab|cd) = (ba|cd) = (ab|dc) = (cd|ab): the recursions are run for the orientation of the
+        # quartet in which they are best conditioned (the given one in case of a tie) and the axes
+        # are put back in the requested order afterwards
+        conts = (cont_one, cont_two, cont_three, cont_four)
+        order = min(_ORIENTATIONS, key=lambda o: _noise_amplification(*(conts[i] for i in o)))
+        cont_one, cont_two, cont_three, cont_four = (conts[i] for i in order)
         if cont_one.angmom == cont_two.angmom == cont_three.angmom == cont_four.angmom == 0:
             integrals = _compute_two_elec_integrals_angmom_zero(
                 cls.boys_func,
@@ -198,9 +240,9 @@ class ElectronRepulsionIntegral(BaseFourIndexSymmetric):
             )
         integrals = np.transpose(integrals, (4, 0, 5, 1, 6, 2, 7, 3))
 
-        # TODO: if we swap the contractions, we need to unswap them here
-
-        return integrals
+        # axes (2k, 2k+1) belong to the k-th contraction of the orientation that was evaluated
+        positions = [order.index(i) for i in range(4)]
+        return np.transpose(integrals, [axis for k in positions for axis in (2 * k, 2 * k + 1)])
 
 
 def electron_repulsion_integral(basis, transform=None, notation="physicist"):
